@@ -1,0 +1,20 @@
+//go:build verif
+
+package nat
+
+import "io"
+
+// HoldPoolForVerif takes the pool lock so that callers of AllocateNAT/DeallocateNAT queue at it;
+// the verification harness uses it to place concurrent callers between the allocation precheck
+// and the pool critical section deterministically.
+func (m *Manager) HoldPoolForVerif() { m.poolMu.Lock() }
+
+// ReleasePoolForVerif releases the lock taken by HoldPoolForVerif.
+func (m *Manager) ReleasePoolForVerif() { m.poolMu.Unlock() }
+
+// SetWriterForVerif redirects the logger's output (NewLogger only offers stdout or a file).
+func (l *Logger) SetWriterForVerif(w io.Writer) {
+	l.mu.Lock()
+	l.writer = w
+	l.mu.Unlock()
+}
